@@ -89,10 +89,10 @@ theorem stackData_mono {n n' : Nat} {st : List Act} (hn : n ≤ n') (h : StackDa
   | rejectReq c i => trivial
 
 /-- the common part of whenAll / whenAny: a new root core, a new data block pointing at it, and the attach actions -/
-theorem good_combinator {m : M} (g : Good roots m) (total : Nat) (acts : List Act)
+theorem good_combinator {m : M} (g : Good roots m) (total : Nat) (ins : List Nat) (ak : Bool) (acts : List Act)
     (hacts : ∀ a ∈ acts, ∃ p r, a = .attach p r ∧ r.settler = false ∧ r.rc = 0 ∧ r.jc = 0 ∧ DataIn (m.datas.length + 1) r) :
     Good (m.cores.length :: roots)
-      { (m.newCore {}).1 with datas := (m.newCore {}).1.datas ++ [({ target := m.cores.length, total := total } : Data)],
+      { (m.newCore {}).1 with datas := (m.newCore {}).1.datas ++ [({ target := m.cores.length, total := total, inputs := ins, anyKind := ak } : Data)],
                               stack := acts ++ (m.newCore {}).1.stack } := by
   have g1 := good_newCore_root (m := m) {} rfl g
   have o1 := g1.own
@@ -169,7 +169,7 @@ theorem good_exec (m : M) (op : Op) (g : Good roots m) (hwf : wfOp roots op) :
   | whenAll ps =>
     simp only [exec, rootsStep]
     have e1 : Ext m.cores (m.newCore {}).1.cores := ext_newCore m.cores {} rfl
-    refine good_settleDown (good_combinator g ps.length _ ?_) e1
+    refine good_settleDown (good_combinator g ps.length _ _ _ ?_) e1
     intro a ha
     simp only [List.mem_map] at ha
     obtain ⟨pi, _, rfl⟩ := ha
@@ -177,7 +177,7 @@ theorem good_exec (m : M) (op : Op) (g : Good roots m) (hwf : wfOp roots op) :
   | whenAny ps =>
     simp only [exec, rootsStep]
     have e1 : Ext m.cores (m.newCore {}).1.cores := ext_newCore m.cores {} rfl
-    refine good_settleDown (good_combinator g ps.length _ ?_) e1
+    refine good_settleDown (good_combinator g ps.length _ _ _ ?_) e1
     intro a ha
     simp only [List.mem_map] at ha
     obtain ⟨pi, _, rfl⟩ := ha
